@@ -248,7 +248,7 @@ ClPolyArea(verts, rects) == 2 * SumRectArea(rects) = Abs(Shoelace2(verts))
 
 \* recognition is judged with the definitions of module Stog (C06); its state machine is not used here
 StogDefs == INSTANCE Stog WITH NX <- 0, NY <- 0, MAXR <- 0, HISTLEN <- 0, EMIT <- FALSE,
-                               pc <- "", rects <- <<>>, roles <- <<>>, given <- <<>>, result <- 0
+                               pc <- "", rects <- <<>>, roles <- <<>>, given <- <<>>, result <- 0, net <- <<>>, ops <- <<>>
 \* "loaded as a module, are recognised as a single-trunk orthogon with the trunk first"
 ClPolyRecognised(ok, loaded) ==
   /\ ok = 1 /\ Len(loaded) >= 1 /\ loaded[1][5] = "T"
